@@ -127,7 +127,7 @@ def check_case(ctx, case):
 
 
 def run(ctx):
-    for k in range(ctx.n(40, 400)):
+    for k in range(ctx.n(60, 500)):
         check_case(ctx, gen(ctx))
     ctx.lean.flush()
 
